@@ -67,6 +67,11 @@ c.finish(
         "(modelled as rune lists; a string that is not valid UTF-8 cannot be stored in a ToUnicode CMap)",
         "enumeration theorems assume at most limits.MaxCMapMappings (translated constant) entries, the documented budget of All()",
         "rangeIndex results are capped at math.MaxInt32 as the Go code documents (hypothesis i <= max_int32)",
+        "the SetMapping theorems quantify over an arbitrary parent file/chain (hand-made, overlapping entries, ranges wider than "
+        "MaxCMapMappings); redundancy of an entry is decided by lookup in the parent chain (first match), not by its enumeration",
+        "Embed/Extract of chains: the /UseCMap stream of the dictionary decides the parent, the usecmap name is looked up among the predefined "
+        "CMaps only without it (extract_embed_chain holds for every table of predefined CMaps, so also when custom files carry predefined names); "
+        "reading back sorts the lists, so every custom file of the chain is asked to be stable (sorted lists, or built by SetMapping)",
         "text level: files are well-formed (wf_ctext / wf_ttext: at most 100 code space ranges, non-empty codes, ranges of equal length with "
         "first <= last, CIDs below 2^32, valid text); reading back sorts every list by code (the interpreter's endcmap), so the lookup corollaries "
         "ask for notdef lists that are already sorted (nd_sorted_wf); the parent is a name in the text and resolved outside (PDF /UseCMap)",
